@@ -1,3 +1,3 @@
-CONSTANTS Scope = "ext" OneByOne = FALSE Mutant = "none"
+CONSTANTS Scope = "ext" OneByOne = FALSE Mutant = "none" Pick = {}
 SPECIFICATION Spec
 INVARIANT Emit
